@@ -87,14 +87,15 @@ func agCase(w *bufio.Writer, r *u.Rng, client, tracer bool, dist map[string]int,
 	if client {
 		nextStream = 1
 	}
-	skippedNow := func() []int64 { // numbers <= largest that PopPacketNumber never returned
+	skippedNow := func() []int64 { // numbers the history moved past that PopPacketNumber never returned to a sender
 		in := map[int64]bool{}
 		for _, p := range sent {
 			in[p] = true
 		}
 		var sk []int64
 		if len(sent) > 0 {
-			for q := sent[0]; q <= largest; q++ {
+			// up to the highest number the history has seen: PTO expiries after the last send skip numbers too
+			for q := sent[0]; q <= max(largest, sph.AppHighest()); q++ {
 				if !in[q] {
 					sk = append(sk, q)
 				}
